@@ -654,6 +654,31 @@ impl Schedule {
 
         let moved_nodes: Vec<NodeIdx> = path.iter().collect();
 
+        // if the receiver takes over the start depot of the provider (which is deleted in that
+        // case), the depot needs capacity for the receiver's type once the provider has left
+        let new_start_depot = moved_nodes[0];
+        if self.is_vehicle(receiver)
+            && self.network.node(new_start_depot).is_start_depot()
+            && new_start_depot != tour_receiver.start_depot().unwrap()
+        {
+            let mut depot_usage_without_provider = self.depot_usage.clone();
+            self.update_depot_usage_assuming_no_dummies(
+                &mut depot_usage_without_provider,
+                self.vehicles.get(&provider).unwrap().clone(),
+                None,
+            );
+            if !self.can_depot_spawn_vehicle_custom_usage(
+                new_start_depot,
+                self.vehicle_type_of(receiver).unwrap(),
+                &depot_usage_without_provider,
+            ) {
+                return Err(format!(
+                    "Cannot override_reassign segment {} from vehicle {} to vehicle {}. New start depot has no capacity available.",
+                    segment, provider, receiver,
+                ));
+            }
+        }
+
         // insert path into tour
         let (new_tour_receiver, replaced_path) = tour_receiver.insert_path(path);
 
